@@ -47,7 +47,7 @@ func corpusLateAdd(t *testing.T, w *emit.Writer) {
 	vhdr.SetPolicy(vhdr.LinkPolicy(0))
 	defer vhdr.SetPolicy(nil)
 	reg := vhdr.NewRegistry()
-	const tail, nInit, nChain = 15, 3, 5
+	const tail, nInit, nChain = 15, 3, 12
 	sp := int64(time.Millisecond)
 	t0 := time.Now().UnixNano() - int64(nInit+nChain+10)*sp
 	raw := vhdr.Chain("a", tail, nInit+nChain, t0, sp, nil)
@@ -92,6 +92,16 @@ func corpusLateAdd(t *testing.T, w *emit.Writer) {
 		}
 		return h.Height()
 	}
+	storeHeadID := func() uint64 {
+		h, err := st.Head(ctx)
+		if err != nil {
+			return 0
+		}
+		if at, err := st.GetByHeight(ctx, h.Height()); err == nil && at != nil {
+			return reg.ID(at.Hash())
+		}
+		return reg.ID(h.Hash())
+	}
 	var acts []string
 	obs := func(act string, ret int) {
 		o := fmt.Sprintf("(Obs %d %d ", ret, storeHead())
@@ -107,7 +117,7 @@ func corpusLateAdd(t *testing.T, w *emit.Writer) {
 			req = fmt.Sprintf("(Some (%d, %d))", last[0], last[1])
 		}
 		g.mu.Unlock()
-		o += fmt.Sprintf("%d %d %d %d %d %s %d %s)", lh.Height(), reg.ID(lh.Hash()), s.ID, s.FromHeight, s.ToHeight, emit.B(s.Error != ""), s.Height, req)
+		o += fmt.Sprintf("%d %d %d %d %d %s %d %s %d)", lh.Height(), reg.ID(lh.Hash()), s.ID, s.FromHeight, s.ToHeight, emit.B(s.Error != ""), s.Height, req, storeHeadID())
 		acts = append(acts, emit.Pair(act, o))
 	}
 	term := func(h *PH) string { return reg.Term(&h.Header) }
@@ -176,6 +186,33 @@ func corpusLateAdd(t *testing.T, w *emit.Writer) {
 		r21 = 2
 	}
 	obs(fmt.Sprintf("(DDeliver %s %s (Bif [] false))", term(at(21)), emit.Z(now)), r21)
+	// 5: a head that skips heights: the sync it starts resumes from the store head
+	now = time.Now().UnixNano()
+	err26 := sub.v(context.Background(), at(26))
+	r26 := 1
+	if err26 != nil {
+		r26 = 2
+	}
+	waitFor(t, "the range request for 22..25", func() bool { g.mu.Lock(); defer g.mu.Unlock(); return g.cur != nil })
+	obs(fmt.Sprintf("(DDeliver %s %s (Bif [] false))", term(at(26)), emit.Z(now)), r26)
+	// 6: served in full
+	g.mu.Lock()
+	ch = g.cur
+	g.cur = nil
+	var last [2]uint64
+	if len(g.reqs) > 0 {
+		last = g.reqs[len(g.reqs)-1]
+	}
+	g.mu.Unlock()
+	if ch != nil && last[1] > last[0]+1 && last[0] >= tail {
+		var hs []*PH
+		for n := last[0] + 1; n < last[1] && n < tail+nInit+nChain; n++ {
+			hs = append(hs, at(n))
+		}
+		ch <- hs
+		waitFor(t, "store head 26", func() bool { return storeHead() == 26 && sy.State().Height == 26 })
+		obs(fmt.Sprintf("(DAnswer (APrefix %d))", len(hs)), 0)
+	}
 
 	var probe []string
 	for n := uint64(tail); n <= tail+nInit+nChain+1; n++ {
@@ -226,8 +263,8 @@ func corpusLateAdd(t *testing.T, w *emit.Writer) {
 		}
 		return fmt.Sprintf("(gen_chain 1 %d %d (%d)%%Z (%d)%%Z %d %d)", from, n, t0+int64(from-tail)*sp, sp, id, prev)
 	}
-	caseTerm := fmt.Sprintf("Case03 %s 0 false %d %s %s %s [1; 1; %d] %s %s %d", emit.Z(int64(header.VerifClockDrift())), tail,
-		gen(tail, nInit, 1), gen(tail+nInit, nChain, nInit+1), emit.List(acts), r21, emit.List(probe), emit.List(heights), hashes)
+	caseTerm := fmt.Sprintf("Case03 %s 0 false %d %s %s %s [1; 1; %d; %d] %s %s %d", emit.Z(int64(header.VerifClockDrift())), tail,
+		gen(tail, nInit, 1), gen(tail+nInit, nChain, nInit+1), emit.List(acts), r21, r26, emit.List(probe), emit.List(heights), hashes)
 	w.Add(caseTerm, map[string]any{"class": "corpus/late_pending_add", "what": "verifier call parked before pending.Add, Head() learns the next head, loop syncs, late Add"},
 		"corpus/late_pending_add", true)
 	w.Count("class", "corpus/late_pending_add")
